@@ -13,6 +13,7 @@
 //	faults     environment faults (context cancelled / no descriptor left) during a Write that spans a chunk roll-over
 //	tailrace   deterministic replay of #34: scripted journal under the real journal iterators vs the observation models
 //	xread      concurrent readers on separate connections over a quiescent store: each read = exactly the partition's events
+//	wpos       concurrent writers to ONE partition: the ranges OnWrite announces are disjoint, cover the chunk, one call each
 //	stress     thorough only: K free-running writers (RPC and direct, shared and private partitions) + concurrent readers;
 //	           the exactly-once/order/content property is checked on a final read after all writers finished and flushed
 package main
@@ -22,6 +23,7 @@ import (
 	"encoding/json"
 	"fmt"
 	"hash/fnv"
+	"net"
 	"os"
 	"runtime"
 	"strings"
@@ -35,6 +37,7 @@ import (
 	"github.com/logrange/logrange/pkg/model"
 	"github.com/logrange/logrange/pkg/model/tag"
 	"github.com/logrange/range/pkg/transport"
+	lbytes "github.com/logrange/range/pkg/utils/bytes"
 	"verifharness/internal/lrsrv"
 	"verifharness/internal/vh"
 )
@@ -55,6 +58,7 @@ type corpusSets struct {
 	wl  []wlCase
 	sys []sysCase
 	tail []tailCase
+	wpos []wposCase
 }
 
 func (cs *corpusSets) add(d corpusDoc) bool {
@@ -81,6 +85,12 @@ func (cs *corpusSets) add(d corpusDoc) bool {
 		var c sysCase
 		if json.Unmarshal(d.Input, &c) == nil {
 			cs.sys = append(cs.sys, c)
+			return true
+		}
+	case "wpos":
+		var c wposCase
+		if json.Unmarshal(d.Input, &c) == nil && c.Writers > 0 {
+			cs.wpos = append(cs.wpos, c)
 			return true
 		}
 	case "tailrace":
@@ -310,6 +320,109 @@ type xreadCase struct {
 	Procs   int `json:"procs"`   // GOMAXPROCS while the readers run (0 = unchanged): sync.Pool is per P, so a pooled buffer released too early
 	// is only re-used by another handler when there are more busy connections than Ps
 	Page    int `json:"page"`
+	// the deterministic form of "another handler re-uses a pooled buffer": StallMs > 0 puts a relay between the readers and
+	// the server that stops draining the server's socket for StallMs at the start of every answer (a page larger than the
+	// socket buffers then blocks the server's Write in the middle); Scribblers > 0 starts that many goroutines which keep
+	// taking buffers of every size class from the shared bytes.Pool, zero them and give them back (what any other handler
+	// is entitled to do with a buffer it arranged). A buffer that is released only after its last use is never seen by them.
+	StallMs    int `json:"stall_ms,omitempty"`
+	Scribblers int `json:"scribblers,omitempty"`
+	// concurrent requests per connection (0 = 1). On loopback a connection's send buffer takes almost 4 MB and the pool's
+	// largest size class is 3 MB, so ONE pooled page never blocks the server's Write; the second of two pipelined ~2.6 MB
+	// answers does, while the relay holds back the first
+	Pipeline int `json:"pipeline,omitempty"`
+}
+
+// stallRelay accepts connections on a fresh loopback port and relays them to addr; see xreadCase.StallMs
+func stallRelay(addr string, stall time.Duration, stop chan struct{}) (string, error) {
+	ln, err := net.Listen("tcp", "127.0.0.1:0")
+	if err != nil {
+		return "", err
+	}
+	go func() { <-stop; ln.Close() }()
+	go func() {
+		for {
+			down, err := ln.Accept()
+			if err != nil {
+				return
+			}
+			up, err := net.Dial("tcp", addr)
+			if err != nil {
+				down.Close()
+				continue
+			}
+			var asked int32
+			go func() { // client -> server: at once
+				buf := make([]byte, 32<<10)
+				for {
+					n, err := down.Read(buf)
+					if n > 0 {
+						atomic.StoreInt32(&asked, 1)
+						if _, werr := up.Write(buf[:n]); werr != nil {
+							break
+						}
+					}
+					if err != nil {
+						break
+					}
+				}
+				up.Close()
+				down.Close()
+			}()
+			go func() { // server -> client: the first bytes that follow a request are held back
+				buf := make([]byte, 64<<10)
+				for {
+					n, err := up.Read(buf)
+					if n > 0 {
+						if atomic.CompareAndSwapInt32(&asked, 1, 0) {
+							time.Sleep(stall)
+						}
+						if _, werr := down.Write(buf[:n]); werr != nil {
+							break
+						}
+					}
+					if err != nil {
+						break
+					}
+				}
+				up.Close()
+				down.Close()
+			}()
+		}
+	}()
+	return ln.Addr().String(), nil
+}
+
+// scribbler: a legitimate user of the shared buffer pool — arranges a buffer of every size class a result page can have,
+// overwrites it with zeros (a zeroed page decodes without harm: empty strings, timestamp 0) and releases it
+func scribbler(stop chan struct{}) {
+	var pool lbytes.Pool
+	// size classes of pages that do not fit the socket buffers (on loopback the initial send buffer takes more than 1 MB). sync.Pool hands out the P's private slot, then the most
+	// recently released buffers: four per class reach whatever was released since the last round
+	sizes := []int{1000000, 3000000}
+	var held [4][]byte
+	for {
+		for _, sz := range sizes {
+			select {
+			case <-stop:
+				return
+			default:
+			}
+			for k := range held {
+				b := pool.Arrange(sz)
+				b = b[:cap(b)]
+				for i := range b {
+					b[i] = 0
+				}
+				held[k] = b
+			}
+			for k := range held {
+				pool.Release(held[k])
+			}
+		}
+		// not a spin loop: with an always-runnable goroutine the scheduler polls the network only every 10 ms
+		time.Sleep(300 * time.Microsecond)
+	}
 }
 
 func xMsg(part, i, l int) string {
@@ -317,6 +430,8 @@ func xMsg(part, i, l int) string {
 }
 
 func runXRead(c xreadCase, sec *vh.Section) {
+	t0 := time.Now()
+	var tSetup time.Duration
 	dir := lrsrv.NewDir()
 	srv, err := lrsrv.Start(dir, lrsrv.Opts{})
 	if err != nil {
@@ -380,6 +495,7 @@ func runXRead(c xreadCase, sec *vh.Section) {
 			return
 		}
 	}
+	tSetup = time.Since(t0)
 	stopW := make(chan struct{})
 	var wwg sync.WaitGroup
 	for w := 0; w < c.Writers; w++ {
@@ -410,8 +526,22 @@ func runXRead(c xreadCase, sec *vh.Section) {
 			}
 		}(w)
 	}
+	raddr := srv.Addr
+	stopX := make(chan struct{})
+	defer close(stopX)
+	if c.StallMs > 0 {
+		a, err := stallRelay(srv.Addr, time.Duration(c.StallMs)*time.Millisecond, stopX)
+		if err != nil {
+			res.Note("xread: relay: %v", err)
+			return
+		}
+		raddr = a
+	}
 	if c.Procs > 0 {
 		defer runtime.GOMAXPROCS(runtime.GOMAXPROCS(c.Procs))
+	}
+	for i := 0; i < c.Scribblers; i++ {
+		go scribbler(stopX)
 	}
 	var rwg sync.WaitGroup
 	deadline := time.Now().Add(time.Duration(c.DurMs) * time.Millisecond)
@@ -419,42 +549,54 @@ func runXRead(c xreadCase, sec *vh.Section) {
 		rwg.Add(1)
 		go func(r int) {
 			defer rwg.Done()
-			cl, err := rpc.NewClient(transport.Config{ListenAddr: srv.Addr})
+			cl, err := rpc.NewClient(transport.Config{ListenAddr: raddr})
 			if err != nil {
 				res.Note("xread: client: %v", err)
 				return
 			}
 			defer cl.Close()
 			p := r % c.Parts
-			for k := 0; k < c.Reads && atomic.LoadInt32(&failed) == 0 && (c.DurMs == 0 || time.Now().Before(deadline)); k++ {
-				var evs []*api.LogEvent
-				req := &api.QueryRequest{Query: fmt.Sprintf("select from pk=%d", p), Limit: c.Page}
-				msg := ""
-				for len(evs) <= c.Events {
-					qr := &api.QueryResult{}
-					if err := cl.Query(ctx, req, qr); err != nil || qr.Err != nil {
-						msg = fmt.Sprintf("reader %d: query failed: %v %v", r, err, qr.Err)
-						break
-					}
-					if len(qr.Events) == 0 {
-						break
-					}
-					evs = append(evs, qr.Events...)
-					nr := qr.NextQueryRequest
-					req = &nr
-				}
-				if msg == "" {
-					msg = check(p, evs, fmt.Sprintf("reader %d (own connection), read %d", r, k))
-				}
-				if msg != "" {
-					if atomic.CompareAndSwapInt32(&failed, 0, 1) {
-						res.SpecFail(vh.SpecFailure{Section: "xread", Kind: "concurrent-read-foreign-or-missing-events", Input: c, Impl: clip(msg), Spec: "exactly the events written to the partition asked for",
-							What: "a reader racing with other readers (separate connections, store quiescent) got events that are not its partition's acknowledged events in order"})
-					}
-					return
-				}
-				atomic.AddInt64(&total, 1)
+			lanes := c.Pipeline
+			if lanes < 1 {
+				lanes = 1
 			}
+			var lwg sync.WaitGroup
+			for lane := 0; lane < lanes; lane++ {
+				lwg.Add(1)
+				go func(lane int) { // the rpc client multiplexes concurrent calls over its one connection
+					defer lwg.Done()
+					for k := 0; k < c.Reads && atomic.LoadInt32(&failed) == 0 && (c.DurMs == 0 || time.Now().Before(deadline)); k++ {
+						var evs []*api.LogEvent
+						req := &api.QueryRequest{Query: fmt.Sprintf("select from pk=%d", p), Limit: c.Page}
+						msg := ""
+						for len(evs) <= c.Events {
+							qr := &api.QueryResult{}
+							if err := cl.Query(ctx, req, qr); err != nil || qr.Err != nil {
+								msg = fmt.Sprintf("reader %d: query failed: %v %v", r, err, qr.Err)
+								break
+							}
+							if len(qr.Events) == 0 {
+								break
+							}
+							evs = append(evs, qr.Events...)
+							nr := qr.NextQueryRequest
+							req = &nr
+						}
+						if msg == "" {
+							msg = check(p, evs, fmt.Sprintf("reader %d (own connection, request lane %d of %d), read %d", r, lane, lanes, k))
+						}
+						if msg != "" {
+							if atomic.CompareAndSwapInt32(&failed, 0, 1) {
+								res.SpecFail(vh.SpecFailure{Section: "xread", Kind: "concurrent-read-foreign-or-missing-events", Input: c, Impl: clip(msg), Spec: "exactly the events written to the partition asked for",
+									What: "a reader racing with other readers (separate connections, store quiescent) got events that are not its partition's acknowledged events in order"})
+							}
+							return
+						}
+						atomic.AddInt64(&total, 1)
+					}
+				}(lane)
+			}
+			lwg.Wait()
 		}(r)
 	}
 	rwg.Wait()
@@ -462,12 +604,12 @@ func runXRead(c xreadCase, sec *vh.Section) {
 	wwg.Wait()
 	res.Eval(sec, fmt.Sprint(c))
 	res.Dist(sec, fmt.Sprintf("readers=%d writers=%d", c.Readers, c.Writers))
-	res.Note("xread %+v: %d concurrent full reads intact", c, atomic.LoadInt64(&total))
+	res.Note("xread %+v: %d concurrent full reads intact (setup %.1fs, total %.1fs)", c, atomic.LoadInt64(&total), tSetup.Seconds(), time.Since(t0).Seconds())
 }
 
 func sectionXRead(rng *vh.Rng) {
 	sec := res.Section("xread", "stress",
-		"concurrent readers over a quiescent store: self-describing events (write-level + own fields, messages naming partition and index) written through RPC, flush awaited; one sequential read per partition, then three configurations — 24 readers over 16 partitions with ~2 MB pages under GOMAXPROCS 4 and 4 writers sending 3000-event batches to other partitions (more busy connections than Ps: a pooled buffer released too early is then re-used by another handler), 8 readers with ~250 KB pages, 12 readers with 300-event pages under GOMAXPROCS 2 — each reader on its own RPC connection re-reads its partition completely over and over for 4 s / 1.5 s / 1.5 s (thorough: the 2 MB configuration once, the two smaller ones twice for 3 s, the second time with 2 writers to other partitions): every read must be exactly the partition's events (count, order, timestamp, message, tag line, fields). No writer touches the partitions being read, so the tail race #34 cannot occur. non-trivial = every run")
+		"concurrent readers over a quiescent store: self-describing events (write-level + own fields, messages naming partition and index) written through RPC, flush awaited; one sequential read per partition, then the configurations — (a) DETERMINISTIC pooled-buffer reuse: 2 connections x 3 pipelined request lanes reading ~2.6 MB pages through a relay that holds back the first bytes of every answer for 100 ms (the second pipelined page then blocks in the server's socket write: a loopback send buffer takes < 4 MB), while a scribbler goroutine keeps arranging, zeroing and releasing buffers of the big size classes of the shared bytes.Pool under GOMAXPROCS 1 (thorough: also 4 scribblers with all Ps) — a page buffer released before its last use is zeroed under the writer's hands; (b) 8 readers with ~250 KB pages; (c) 12 readers with 300-event pages under GOMAXPROCS 2 — each reader on its own RPC connection re-reads its partition completely over and over for 1.2 s / 1.5 s / 1.5 s (thorough: (b), (c) twice for 3 s, the second time with 2 writers to other partitions, plus the free-running form of (a): 24 readers over 16 partitions with ~2 MB pages under GOMAXPROCS 4 and 4 writers sending 3000-event batches to other partitions for 4 s): every read must be exactly the partition's events (count, order, timestamp, message, tag line, fields). No writer touches the partitions being read, so the tail race #34 cannot occur. non-trivial = every run")
 	dur, rounds := 1500, 1
 	if args.Thorough {
 		dur, rounds = 3000, 2
@@ -477,15 +619,20 @@ func sectionXRead(rng *vh.Rng) {
 		if args.Thorough && i > 0 {
 			w = 2
 		}
-		for _, c := range []xreadCase{
-			// more busy connections than processors, pages of ~2 MB (the socket write blocks), writers to other partitions
-			{Parts: 16, Events: 8000, MsgLen: 200, Readers: 24, Reads: 1 << 20, DurMs: 4000, Page: 10000, Writers: 4, WBatch: 3000, Procs: 4},
+		cfgs := []xreadCase{
+			// the deterministic form of "a pooled page buffer is re-used while it is being sent" (see xreadCase.StallMs)
+			{Parts: 2, Events: 1000, MsgLen: 2600, Readers: 2, Reads: 1 << 20, DurMs: 1200, Page: 10000, Procs: 1, StallMs: 100, Scribblers: 1, Pipeline: 3},
 			{Parts: 4, Events: 1500, MsgLen: 80, Readers: 8, Reads: 1 << 20, DurMs: dur, Page: 10000, Writers: w},
 			{Parts: 3, Events: 2000, MsgLen: 60, Readers: 12, Reads: 1 << 20, DurMs: dur, Page: 300, Writers: w, Procs: 2},
-		} {
-			if c.Procs == 4 && i >= 1 {
-				continue // the 2 MB-page configuration is the expensive one (128k events written per run): once per run
-			}
+		}
+		if args.Thorough && i == 0 {
+			cfgs = append(cfgs,
+				xreadCase{Parts: 2, Events: 1000, MsgLen: 2600, Readers: 3, Reads: 1 << 20, DurMs: 1500, Page: 10000, StallMs: 100, Scribblers: 4, Pipeline: 3},
+				// free running: more busy connections than processors, pages of ~2 MB, writers to other partitions (128k events
+				// written: the expensive one, once per run)
+				xreadCase{Parts: 16, Events: 8000, MsgLen: 200, Readers: 24, Reads: 1 << 20, DurMs: 4000, Page: 10000, Writers: 4, WBatch: 3000, Procs: 4})
+		}
+		for _, c := range cfgs {
 			runXRead(c, sec)
 			if len(res.SpecFailures) > 0 && res.SpecFailures[len(res.SpecFailures)-1].Section == "xread" {
 				res.Done(sec)
@@ -504,7 +651,7 @@ func replay(path string) {
 		res.Fatal(args.Out, "replay: %v", err)
 	}
 	var cs corpusSets
-	if !cs.add(d) {
+	if d.Section == "wpos" || !cs.add(d) {
 		if d.Section == "xread" {
 			var c xreadCase
 			json.Unmarshal(d.Input, &c)
@@ -512,6 +659,18 @@ func replay(path string) {
 			runXRead(c, sec)
 			for _, f := range res.SpecFailures {
 				fmt.Printf("SPEC-FAILURE kind=%s: %s\n  impl=%s\n", f.Kind, f.What, f.Impl)
+			}
+			res.Write(args.Out)
+			return
+		}
+		if d.Section == "wpos" {
+			var c wposCase
+			json.Unmarshal(d.Input, &c)
+			sec := res.Section("wpos", "replay", "re-run of one concurrent-writers configuration (schedule dependent)")
+			runWPos(c, sec)
+			reapWG.Wait()
+			for _, f := range res.SpecFailures {
+				fmt.Printf("SPEC-FAILURE kind=%s finding=%s: %s\n  impl=%s\n", f.Kind, f.Finding, f.What, f.Impl)
 			}
 			res.Write(args.Out)
 			return
@@ -581,6 +740,10 @@ func main() {
 		}
 	}
 	rng := vh.NewRng(args.Seed)
+	// xread first: it restricts GOMAXPROCS for a while, and the servers of the other sections leave hundreds of goroutines
+	// (flush timers of journals the library never closes) behind that would then compete for the few Ps — measured: 11 s
+	// instead of 2 s for the same configuration at the end of the run. (Forked generators: the order does not change any case.)
+	sectionXRead(rng.Fork("xread"))
 	sectionEvent(rng.Fork("event"), cs.ev)
 	sectionPacket(rng.Fork("packet"), cs.pkt)
 	sectionWriteLoop(rng.Fork("writeloop"), cs.wl)
@@ -588,7 +751,7 @@ func main() {
 	sectionRestart(rng.Fork("restart"))
 	sectionFaults(rng.Fork("faults"), cs.wl)
 	sectionTailRace(rng.Fork("tailrace"), cs.tail)
-	sectionXRead(rng.Fork("xread"))
+	sectionWPos(rng.Fork("wpos"), cs.wpos)
 	sectionStress(rng.Fork("stress"))
 	res.Write(args.Out)
 }
